@@ -302,5 +302,5 @@ def main(tier, seed):
     minimum = {'pairs': (n, 5000), 'cmp:N': (hist.get('cmp:N', 0), 100), 'cmp:L': (hist.get('cmp:L', 0), 500),
                'program comparisons': (ncmp, 1000), 'comparisons in compiled programs': (chist.get('compiled_comparisons', 0), 150),
                'fraction operands at ?': (phist.get('branch:?:frac:left', 0) + phist.get('branch:?:frac:right', 0), 100),
-               'negative fractions within 1 of the count': (phist.get('negative_fraction_within_1_of_count', 0), 20)}
+               'negative fractions within 1 of the count': (phist.get('negative_fraction_within_1_of_count', 0), 10)}
     return rep.finish(cov, assumptions, t0, minimum)
